@@ -1,12 +1,92 @@
-"""Per-property claim texts for MANIFEST.json."""
+"""Per-property claim texts for MANIFEST.json (kept in step with DESIGN.md §status)."""
+
+TIE = (' Tie to /repo on every run: exact differential correspondence of the Lean implementation model with the real code (integer filters and inputs, so float64 is exact; '
+       'unit-impulse batches compare whole operators), plus translators that regenerate Lean sources from the repository (tables, axis functions, mode codes).')
+BRK = (' A broken theorem, translator or correspondence triggers a failing-input search with the property oracle on the real code; known findings are listed in KNOWN_FINDINGS.json.')
 
 
 def register(claim, not_yet):
     claim('C01',
-          'Lean theorems (all signal lengths, all filter lengths, any commutative ring): the model of afb1d (pad-size arithmetic, index vectors, stride-2 correlation with the reversed buffer) equals the '
-          'PyWavelets formula Σ_j h[j]·x̃(2k+1−j) in modes zero, symmetric, periodic. The model is tied to the code by an exact integer correspondence of afb1d / AFB1D / AFB2D / DWT1DForward / DWTForward '
-          '(whole operators via unit impulses), the Lean spec is checked exactly against pywt, and the real modules are compared with pywt.wavedec/wavedec2 on integer and named wavelets. '
-          'Reflect/periodization refinement and the multi-level induction are covered by correspondence + oracle only at this stage (see DESIGN.md status table).',
+          'Lean theorems for every signal length, filter length and commutative ring: the model of afb1d (pad-size arithmetic, index vectors, stride-2 correlation with the reversed buffer, and for '
+          'periodization roll + zero-padded correlation + single fold) equals the PyWavelets formula in modes zero, symmetric, periodic, and in periodization for even N >= L (partial: the proof forces '
+          'L <= N, which is the known finding C01-periodization-short, witnessed by decide); one level of the 2-D transform on a channel equals pywt.dwt2 with bands (cH,cV,cD)=(LH,HL,HH). '
+          'Reflect mode, odd-N periodization, the J-level induction and the C-channel lifting are decided by the exact correspondence (afb1d, AFB1D, AFB2D, DWT1DForward, DWTForward) and by the '
+          'pywt oracle on integer and all named wavelets.' + TIE + BRK,
           'Lean 4 refinement theorems (impl-model = pywt spec) + exact model/code correspondence + pywt oracle search', 'DESIGN.md §4 C01')
-    for p in ['C02', 'C03', 'C04', 'C05', 'C06', 'C07', 'C08', 'C09', 'C10', 'C11', 'C12', 'C13', 'C14', 'C15', 'C16', 'C17', 'C18', 'C19']:
+    claim('C02',
+          'Proved: both directions refine the PyWavelets formulas (C01/C10 theorems), the un-pad length rule (result has N or N+1 samples) and perfect reconstruction for every two-tap '
+          'biorthogonal bank, every signal, mode zero. The general length-L PR statement is not yet a theorem (staged): it is decided by inverse(forward(x)) on the real modules for random '
+          'wavelets out of all 106, all modes, odd sizes, with PyWavelets own reconstruction error as yardstick (dmey clause).' + TIE + BRK,
+          'Lean 4 theorems (refinement both ways, two-tap PR, un-pad rule) + exact correspondence + round-trip oracle', 'DESIGN.md §4 C02',
+          'PR for general filter length is oracle-decided, not proved: partial.')
+    claim('C03',
+          'Proved: the level-1 filter colfilter(X, prep_filt(h)) equals the reference convolution with h on the half-sample symmetric extension for every filter and column length; the stack/view '
+          'interleaving puts tree a / tree b on even / odd rows; coldfilt raises exactly when the length is not a positive multiple of 4. The quarter-shift filters, q2c orientation order and the '
+          'J-level pyramid (odd-size replication, multiple-of-4 extension) are decided by the exact Q(sqrt2) correspondence of all eight low-level filters, q2c, fwd_j1, fwd_j2plus and '
+          'DTCWTForward, and by comparing the real module with dtcwt.Transform2d on the 20 named pairs and on integer filters.' + TIE + BRK,
+          'Lean 4 refinement theorems for the level-1 filters + exact Q(sqrt2) correspondence + numpy dtcwt oracle', 'DESIGN.md §4 C03', 'level >= 2 refinement is correspondence/oracle-decided: partial.')
+    claim('C04',
+          'Proved: c2q(q2c(y)) = y on every even-sized image from 2*s*s = 1 alone, and the even-extension rule (odd sizes gain one repeated row/column). The filter-bank part of PR (level 1 '
+          'symmetric biorthogonal pair, level >= 2 q-shift pair) is staged; it is decided by DTCWTInverse(DTCWTForward(x)) on the real code for all 20 named pairs, J up to 5, sizes 2..44 '
+          'including odd and non-multiples of 4, plus the exact correspondence of analysis and synthesis ops.' + TIE + BRK,
+          'Lean 4 theorems (quad/complex round trip, extension) + exact correspondence + round-trip oracle on all 20 pairs', 'DESIGN.md §4 C04', 'filter-bank PR is oracle-decided: partial.')
+    claim('C05',
+          'Proved for all lengths, filters, cotangents: strided correlation and transposed convolution are mutual adjoints; AFB1D.backward in mode zero (sfb1d + crop) satisfies '
+          '<forward x, g> = <x, backward g>. The other modes are decided by the exact correspondence of the four autograd Functions backward passes (all requires_grad masks) and by the Jacobian '
+          'oracle J^T g on the four modules; the non-adjoint backward passes of symmetric/reflect/periodic (pinned by baseline tests) and short periodization are known findings with '
+          'decide-checked witnesses.' + TIE + BRK,
+          'Lean 4 adjointness theorems (inner-product identities) + exact autograd correspondence + Jacobian oracle', 'DESIGN.md §4 C05')
+    claim('C06',
+          'Proved: q2c and c2q are mutual adjoints on every image; the backward passes are by construction the opposite transform with the same buffers (level 1) or exchanged trees (level >= 2). '
+          'That these are the adjoints needs the table identities of C18 and is staged; it is decided by the exact correspondence of FWD_J1/FWD_J2PLUS/INV_J1/INV_J2PLUS.backward through '
+          'torch.autograd (all layouts, skip flags, grad masks) and by the Jacobian oracle on both modules for the 20 named pairs and structured integer filters.' + TIE + BRK,
+          'Lean 4 adjointness theorem for q2c/c2q + exact autograd correspondence + Jacobian oracle', 'DESIGN.md §4 C06', 'filter adjointness is oracle-decided: partial.')
+    claim('C07',
+          'Proved for all sizes: correlation (any stride/dilation), index-vector padding and zero padding are linear, hence afb1d in symmetric mode is; the grouped convolution with the code weight '
+          'cat([h0,h1]*C), groups=C applies the same two one-channel operators to every channel for every C, and raises iff a channel does (afb1dT_per_channel). All seven transforms are '
+          'additionally checked on the real code: T(ax+by)=aT(x)+bT(y), T(0)=0, slice-alone = slice-of-batch, other slices irrelevant (exact on integers).' + TIE + BRK,
+          'Lean 4 linearity + per-channel theorems + exact correspondence with N,C>1 + linearity/slice oracle', 'DESIGN.md §4 C07')
+    claim('C10',
+          'Proved for arbitrary band contents, all band lengths and filter lengths: sfb1d in modes zero/symmetric/reflect/periodic (two transposed stride-2 convolutions cropped by L-2) equals '
+          'pywt.idwt. Periodization synthesis, the un-pad rule, None levels and the 2-D/J-level lifting are decided by the exact correspondence (sfb1d, SFB1D, SFB2D, sfb2d, DWT1DInverse, '
+          'DWTInverse with None) and by the pywt.waverec/waverec2 oracle on arbitrary pyramids; short periodization is a known finding.' + TIE + BRK,
+          'Lean 4 refinement theorem (synthesis = pywt idwt) + exact correspondence + pywt oracle on arbitrary pyramids', 'DESIGN.md §4 C10')
+    claim('C11',
+          'Proved: the four poly-phase branches of colifilt interleave as rows 4t..4t+3; colifilt raises exactly for odd/empty columns; with the band-pass absent inv_j2plus is the low-pass-only '
+          'synthesis; DTCWTInverse with nothing present raises. Equality with the reference inverse is decided by the exact Q(sqrt2) correspondence (colifilt/rowifilt, c2q, inv_j1, inv_j2plus, '
+          'DTCWTInverse with absent inputs in three spellings) and by the dtcwt oracle on arbitrary pyramids; absent == zeros is checked for subsets of levels (one known finding: absent level '
+          'below an extended level).' + TIE + BRK,
+          'Lean 4 structural theorems + exact Q(sqrt2) correspondence + numpy dtcwt inverse oracle + absent==zeros oracle', 'DESIGN.md §4 C11', 'reference equality is correspondence/oracle-decided: partial.')
+    claim('C12',
+          'get_dimensions5/6 are TRANSLATED from the source on every run and proved correct for ALL integer (o_dim, ri_dim) with distinct residues (negative aliases included): orientation and '
+          'real/imaginary axes sit where requested and h_dim/w_dim are the image rows/columns; every layout is a permutation of the canonical axes. Skip/include masks and prefix consistency '
+          'follow the level loop and are decided by the exact correspondence of both modules over all layouts and masks and by the oracle (30 layouts + aliases, all masks J<=3, prefixes).' + TIE + BRK,
+          'Lean 4 theorems over source-translated axis functions (interval_cases + decide) + exact correspondence + layout/mask/prefix oracle', 'DESIGN.md §4 C12')
+    claim('C13',
+          'Proved for every even filter length, dilation and signal length: afb1d_atrous in periodic mode equals the pywt swt formula (circular correlation with the dilated filter), and that '
+          'formula is circular-shift equivariant for every shift. The module (mode alias, (N,C,4,H,W) reshape, level loop with dilation 2^j) is decided by the exact correspondence and by '
+          'pywt.swt2 + shift checks on the real code.' + TIE + BRK,
+          'Lean 4 refinement + shift-equivariance theorems + exact correspondence + pywt.swt2 oracle', 'DESIGN.md §4 C13')
+    claim('C14',
+          'Proved: one level of DWTForward built from (h0_col,h1_col,h0_row,h1_row) equals pywt.dwt2 with (column wavelet, row wavelet) — column filters act vertically, row filters '
+          'horizontally — for every image size and filter length in the proved modes; 2-tuples equal the repeating 4-tuple; DWTInverse hands the column pair to the vertical synthesis. '
+          'Checked on the real code against pywt per-axis wavelets, the functional afb2d, and ordered pairs of distinct named wavelets.' + TIE + BRK,
+          'Lean 4 per-axis theorem through the positional AFB2D/SFB2D call + exact correspondence + per-axis pywt oracle', 'DESIGN.md §4 C14')
+    claim('C17',
+          'Proved: in C17 regime (even N >= L) the code periodization branch is the circular two-band bank; every two-tap orthonormal bank preserves energy exactly for every even length; '
+          'correlation/transposed-convolution adjointness. The general orthonormal length-L statement (isometry, inverse = transpose = backward) is staged and is decided on the real code by the '
+          'operator oracle (A^T A = I, energy, backprop == inverse) for all haar/db/sym/coif wavelets and exactly on integers for synthesis(reversed filters) == analysis^T.' + TIE + BRK,
+          'Lean 4 theorems (circular refinement, two-tap isometry, adjoint core) + exact correspondence + operator oracle', 'DESIGN.md §4 C17', 'general-L isometry is oracle-decided: partial.')
+    claim('C18',
+          'Every array of every shipped npz table is regenerated into Lean as exact dyadic rationals on every run and every identity is decided by the kernel (decide +kernel): level-1 filters '
+          'symmetric and odd, h0o*g0o+h1o*g1o = delta to 2^-40, q-shift filters orthonormal to 2^-40 (qshift_32: 2^-28), tree b = reverse(tree a) and g = reverse(h) exactly, tree-order signs, '
+          'band-pass variants, every file classified; the loaders are compared with the file contents twice and again after constructing every table-consuming module; bit-exact comparison '
+          'with the reference package. farras / near_sym_a2 (accepted by the q-shift loader, not q-shift tables) are a known finding with a kernel-checked witness.' + BRK,
+          'Lean 4 decide +kernel over source-translated tables (exhaustive) + loader/file correspondence + reference comparison', 'DESIGN.md §4 C18')
+    claim('C19',
+          'Proved: a 2-D correlation with an outer-product kernel factors into nested 1-D correlations for every kernel/image size and stride; the non-separable kernel is the outer product of '
+          'the reversed filters; the inner sum is the separable row pass. Padding/fold commutation and the synthesis side are decided by the exact correspondence of afb2d_nonsep/sfb2d_nonsep/'
+          'afb2d/sfb2d (images smaller than the filter, odd filters, overlapping in-place folds) and by nonsep == separable on the real code.' + TIE + BRK,
+          'Lean 4 factorisation theorems + exact correspondence + nonsep-vs-separable oracle', 'DESIGN.md §4 C19')
+    for p in ['C08', 'C09', 'C15', 'C16']:
         not_yet[p] = 'check under construction in this round (framework built property by property); will be claimed when its Lean module and correspondence are in place'
